@@ -14,7 +14,9 @@ PREDICATES = {
     "C02-F1": lambda case, clause: clause == "accepted-ill-formed" and case.get("kind") == "corrupt" and case.get("op") == "replace"
     and case.get("rep") == "zz" and (bool(case.get("ext")) or case.get("origin") == "file"),
     # a Prepeptide on the frame-shifted gene of the 'codonstart' layout
-    "C10-F1": lambda case, clause: case.get("layout") == "codonstart" and "prepeptide" in case.get("extras", ())
+    "C10-F1": lambda case, clause: (
+        (case.get("layout") == "codonstart" and "prepeptide" in case.get("extras", ()))
+        or (case.get("layout") == "origin-codonstart" and "prepeptide-plain" in case.get("extras", ())))
     and clause in ("genbank-description-differs", "genbank-not-a-fixed-point", "json-description-differs", "json-not-a-fixed-point"),
     # free-text qualifier values longer than a GenBank line without a space to wrap at
     "C10-F2": lambda case, clause: case.get("sideload") == "unbreakable-values" and clause == "genbank-description-differs",
